@@ -45,8 +45,8 @@ def impl_of(sc, units, flavor, ident):
         w = "none" if p == "greeting" else ("data" if p == "eod" else "line")
         if p == sc["pos"]:
             d = sc["script"][k][0]
-            steps.append(step(w, d, stall_ms=5 * T + 300))
-            steps.append(step("none", REPLY[p]))
+            steps.append(step(w, d))                                   # the partial reply goes out at once ...
+            steps.append(step("none", REPLY[p], stall_ms=5 * T + 300))   # ... the rest only after the stall
             k += 2
         else:
             steps.append(step(w, REPLY[p]))
